@@ -261,7 +261,7 @@ func TestVerifC03(t *testing.T) {
 	defer s.Close()
 	budget := 20
 	fmt.Sscanf(os.Getenv("VERIF_BUDGET"), "%d", &budget)
-	nWebs := c.Share(c.Pick(16, 320))
+	nWebs := c.Share(c.Pick(40, 320))
 	fetchesPerWeb := c.Pick(200, 300)
 	for n := 0; n < nWebs; n++ {
 		if c.Past(n) || c.Stop() {
